@@ -30,6 +30,25 @@ class Num:
         return f"Num[{self.unit}]"
 
 
+class RNum(Num):
+    """A value that was just rounded to the internal precision (round(x, config.internal_precision)).  The flag is lost
+    by any arithmetic; it exists to notice a rescaling by an SI prefix right after the rounding."""
+    __slots__ = ()
+
+    def __repr__(self):
+        return f"Num[{self.unit}]"
+
+
+class SNum(Num):
+    """A stored amount that was just converted OUT of its storage unit (convert_from / convert_from_storage with a stored
+    source).  Rounding it to the internal precision - which is meant for storage units - throws away the digits the
+    storage unit still had (1e-10 mol instead of 1e-10 umol)."""
+    __slots__ = ()
+
+    def __repr__(self):
+        return f"Num[{self.unit}]"
+
+
 class Lit:
     __slots__ = ('v',)
 
@@ -368,6 +387,10 @@ class Interp:
                 if not mul and b.v == 0:
                     raise Raised('ZeroDivisionError', getattr(node, 'lineno', 0))
                 return Lit(a.v * b.v if mul else a.v / b.v)
+            if (isinstance(a, RNum) and isinstance(b, SymLit)) or (isinstance(b, RNum) and isinstance(a, SymLit)):
+                self.sink(node, 'round-then-scale', False,
+                          'a value rounded to the internal precision is rescaled by an SI prefix afterwards: the '
+                          'rounding error is multiplied by the prefix (digits below the precision of the unscaled unit are lost)')
             if not isinstance(a, Num) and not isinstance(b, Num):       # two pure numbers, one symbolic
                 va = a.u if isinstance(a, SymLit) else U(a.v)
                 vb = b.u if isinstance(b, SymLit) else U(b.v)
